@@ -147,7 +147,7 @@ def main(wt, only=None):
     for name, rec in RECIPES.items():
         if only and name not in only: continue
         d = os.path.join(E.SEEDED, name); meta = json.load(open(os.path.join(d, "meta.json")))
-        demo_meta = dict(meta); demo_meta["demo"] = re.sub(r"/tmp/mut/out\d*/C\d\d/[a-f]/", "./", meta.get("demo", ""))   # the demonstration files are the ones stored next to the patch
+        demo_meta = dict(meta); demo_meta["demo"] = re.sub(r"/tmp/mut/out\d*/C\d\d/[a-z]/", "./", meta.get("demo", ""))   # the demonstration files are the ones stored next to the patch
         orig = os.path.join(d, "patch.orig.diff") if os.path.exists(os.path.join(d, "patch.orig.diff")) else os.path.join(d, "patch.diff")
         E.sh("git checkout -- .", cwd=wt)
         if rec == "3way":
